@@ -359,6 +359,8 @@ class TaintInterp:
         elif base.kind == "seq":
             nb = seq(join(base.elem, add(v, kt)), base.ot | pc | kt, ("mut", base.oid))
             self.rebind(base_expr, nb, env, fi)
+        elif base.kind in ("scalar", "const", "none", "bound", "func", "node"):
+            self.notes.append(f"store into an untracked object ({base.kind}) at {fi.loc(node)}: shared-state writes are R-GLOBAL's / R-EFFECT's concern")
         else:
             raise AnalysisError(f"taint interpreter: store into {base.kind} at {fi.loc(node)}")
 
@@ -637,6 +639,9 @@ class TaintInterp:
             return seq(sc(g.x.get(key, E)), order, oid)
         if b.kind == "graph":               # m[a] adjacency
             return seq(self.node(g=b), self.src(ORDER, fi, e, "m[a]: neighbour listing order"), ("adj", id(e)))
+        if b.kind in ("bound", "func"):
+            # e.g. m.graph[...] (graph-level data) or an attribute of an untracked object: an influence this analysis has no summary for
+            return add(sc(kt), self.src(UNSUM, fi, e, f"subscript of {norm(e.value)}"))
         raise AnalysisError(f"taint interpreter: subscript on {b.kind} at {fi.loc(e)}")
 
     def e_Attribute(self, e, env, pc, fi):
@@ -674,6 +679,16 @@ class TaintInterp:
                 fv = env[f.id]
                 return self.call_value(fv, args, kw, e, env, pc, fi)
             r = self.repo.resolve(fi.module, f.id)
+            if r is None:
+                q = fi.qualname
+                while True:
+                    cand = f"{q}.<locals>.{f.id}"
+                    if cand in fi.module.functions:
+                        r = ("func", fi.module.functions[cand])
+                        break
+                    if ".<locals>." not in q:
+                        break
+                    q = q.rsplit(".<locals>.", 1)[0]
             if r is None:
                 raise AnalysisError(f"taint interpreter: unknown callee {f.id} at {fi.loc(e)}")
             if r[0] == "func":
